@@ -275,6 +275,23 @@ def check_text(case):
             err = None
         except ChangelogParseError as e:
             cls, err = None, e
+    # The same text parsed once more into an object that has parsed it before: strictness is a
+    # property of the call, not of the object's history - the same warnings, the same blocks.
+    used, _ = lenient(make_input(form, lines, final_nl), aea, text)
+    with warnings.catch_warnings(record=True) as again:
+        warnings.simplefilter("always")
+        try:
+            used.parse_changelog(make_input(form, lines, final_nl), strict=False, allow_empty_author=aea)
+        except Exception as e:
+            raise Violation("lenient-raised:%s" % type(e).__name__, "parse_changelog(%s, strict=False) on an object "
+                            "that had parsed the same text raised %s: %s" % (short(text, 240), type(e).__name__, short(str(e), 120)))
+    msgs2 = [str(w.message) for w in again]
+    if msgs2 != msgs:
+        raise Violation("reparse-into-used-object:warnings-differ", "second lenient parse of %s into the same object "
+                        "warned %s, the first %s" % (short(text), short(msgs2, 200), short(msgs, 200)))
+    diff = first_difference(snapshot(cl), snapshot(used))
+    if diff is not None:
+        raise Violation("reparse-into-used-object:blocks-differ:" + diff[0], diff[1])
     if err is not None and not msgs:
         raise Violation("strict-raises-without-warning:" + warning_class(str(err)),
                         "strict raised %s, lenient was silent, for %s" % (err, short(text)))
